@@ -24,12 +24,29 @@ def main():
     if a.cmd == 'run':
         seed = int(os.environ.get('VERIF_SEED', '0') or 0)
         tier = a.tier if a.tier in ('quick', 'thorough') else 'quick'
-        rc = base.run_check(engines.get(a.pid), tier, seed)
+        try:
+            rc = base.run_check(engines.get(a.pid), tier, seed)
+        except BaseException as e:      # a crash of the machinery is never a verdict (exit 1 means VIOLATION)
+            if isinstance(e, SystemExit):
+                raise
+            import traceback
+            traceback.print_exc()
+            print('HARNESS-ERROR: %s: %s' % (type(e).__name__, e))
+            sys.exit(2)
         sys.exit(rc)
     if a.cmd == 'replay':
         with open(a.path) as f:
             pid = json.load(f)['property']
-        sys.exit(base.replay(engines.get(pid), a.path))
+        try:
+            rc = base.replay(engines.get(pid), a.path)
+        except BaseException as e:
+            if isinstance(e, SystemExit):
+                raise
+            import traceback
+            traceback.print_exc()
+            print('HARNESS-ERROR: %s: %s' % (type(e).__name__, e))
+            sys.exit(2)
+        sys.exit(rc)
     if a.cmd == 'selftest':
         from simkit import selftest
         sys.exit(selftest.run(a.pid, a.n))
